@@ -72,11 +72,12 @@ def core_modules(analysis: Analysis):
         yield mod
 
 
-def check_no_key_removal(analysis: Analysis, res: RuleResult, rule: str) -> None:
+def check_no_key_removal(analysis: Analysis, res: RuleResult, rule: str, maps=None, what=None, why=None) -> None:
     """G-NODEL: nothing removes a key from Gateway.sensors / Sensor.children / Sensor.new_state.
 
     The membership facts of the path analysis survive calls because of this invariant.
     """
+    STATE_MAPS = maps or globals()["STATE_MAPS"]
     count = 0
     for mod in core_modules(analysis):
         # local aliases: `m = x.new_state` makes `m` a name of the map inside that function
@@ -115,8 +116,8 @@ def check_no_key_removal(analysis: Analysis, res: RuleResult, rule: str) -> None
                             count += 1
             if bad:
                 fn = func_of_node(analysis, mod, node)
-                res.add(rule, f"{fn} / {bad}", False, where(analysis, mod, node), "a key of the node/child/desired-state maps can be removed or the map replaced: membership facts no longer survive calls")
-    res.add(rule, "no-removal scan of sensors/children/new_state", True, "mysensors/", f"no del/pop/popitem/clear/reassignment outside constructors ({count} constructor initialisations seen)")
+                res.add(rule, f"{fn} / {bad}", False, where(analysis, mod, node), why or "a key of the node/child/desired-state maps can be removed or the map replaced: membership facts no longer survive calls")
+    res.add(rule, what or "no-removal scan of sensors/children/new_state", True, "mysensors/", f"no del/pop/popitem/clear/reassignment outside constructors ({count} constructor initialisations seen)")
 
 
 def check_key_identity(analysis: Analysis, res: RuleResult, rule: str) -> None:
